@@ -17,7 +17,8 @@ FLOOR_BASE = {"quick": 350, "thorough": 10000}    # case counts the floors below
 def FLOORS(tier):
     q = tier == "quick"
     f = {"trees-checked": 1500 if q else 10 ** 5, "typed-leaf-gates": 200 if q else 5000, "arity>=4": 100 if q else 3000,
-         "depth>=3": 200 if q else 5000, "model-leaf-snapshots": 300, "results-edited-afterwards": 1000}
+         "depth>=3": 200 if q else 5000, "model-leaf-snapshots": 300, "results-edited-afterwards": 1000,
+         "typed-first-operand:returned": 100, "typed-first-operand:refused": 100}
     for g in _sat.ALL:
         f["root:" + g] = 60 if q else 2000
     return f
@@ -35,8 +36,11 @@ def depth_of(desc):
 
 
 def case(ctx, rng, idx):
-    if rng.random() < 0.15:
+    r0 = rng.random()
+    if r0 < 0.15:
         return typed_leaves(ctx, rng)
+    if r0 < 0.27:
+        return typed_overflow(ctx, rng)
     labs = gen.labels(rng, rng.randint(1, 6))
     g = rng.choice(_sat.ALL)
     lib = getattr(L.sat, g)
@@ -87,6 +91,58 @@ def case(ctx, rng, idx):
         ctx.count("results-edited-afterwards")
     except Exception:   # noqa
         pass
+
+
+def typed_overflow(ctx, rng):
+    """The first operand is of a restricted type (QUBO: degree <= 2; Matrix: non-negative integer labels) and the gate's
+    result does not fit it.  Refusing with KeyError (what the type's own arithmetic does) is fine; a model that is
+    returned must still compute the gate, and the operands stay as they were."""
+    tn = rng.choice(["QUBO", "QUBOMatrix", "PUBOMatrix"])
+    T = getattr(L, tn)
+    mat = tn.endswith("Matrix")
+    labs = gen.labels(rng, rng.randint(2, 5), matrix=mat)
+    g = rng.choice([x for x in _sat.ALL if x not in ("NOT", "BUFFER")])
+    first_ls = rng.sample(labs, rng.choice([1, 2]) if len(labs) >= 2 else 1)
+    first = T({tuple(first_ls): 1})
+    ops, fs, ds = [first], [lambda x, ls=tuple(first_ls): int(all(x[v] for v in ls))], ["%s{%s}" % (tn, "*".join(map(repr, first_ls)))]
+    extra = []
+    if mat and rng.random() < 0.5:
+        extra = [rng.choice(["s", -1, ("t", 0)])]            # a label the Matrix type cannot hold
+    for _ in range(rng.randint(1, 3)):
+        l = rng.choice(labs + extra)
+        how = rng.choice(["label", "var", "pair"])
+        if how == "pair":
+            l2 = rng.choice(labs)
+            ops.append({(l, l2): 1} if l != l2 else {(l,): 1})
+            fs.append(lambda x, l=l, l2=l2: x[l] * x[l2])
+            ds.append("{%r*%r}" % (l, l2))
+        else:
+            ops.append(l if how == "label" else L.boolean_var(l))
+            fs.append(lambda x, l=l: x[l])
+            ds.append(repr(l) if how == "label" else "boolean_var(%r)" % (l,))
+    allv = labs + extra
+    desc = "%s(%s)" % (g, ", ".join(ds))
+    w = {"tree": desc}
+    snaps = [(o, dict(o)) for o in ops if isinstance(o, dict)]
+    ok, r = ctx.call(g, getattr(L.sat, g), *ops, expect=(KeyError,), _w=w)
+    ctx.cat("typed-first-operand:" + ("returned" if ok else "refused"))
+    for o, snap in snaps:
+        if dict(o) != snap:
+            ctx.violation(g + ":operand-mutated:typed-first-operand", "an operand changed from %r to %r" % (snap, dict(o)), w)
+            return
+    if not ok:
+        return
+    tab = []
+    for i in range(1 << len(allv)):
+        x = ref.assignment(i, allv, False)
+        tab.append(_sat.gate_value(g, [f(x) for f in fs]))
+    exp = ref.moebius_bool(tab, allv)
+    ctx.count("trees-checked")
+    if ref.from_raw("bool", dict(r)) != exp:
+        ctx.violation(g + ":wrong-truth-function:typed-first-operand", "got %r expected %r" % (dict(r), exp.show()), w)
+        return
+    if len(set(tab)) > 1:
+        ctx.nontrivial(desc)
 
 
 def typed_leaves(ctx, rng):
